@@ -45,7 +45,8 @@ def replay_segy(req, tmp):
         dims = (m_['n_il'], m_['n_xl'], m_['n_s'])
     holes = [m_[k] for k in sorted(m_) if k.startswith('hole')]
     traces, headers, pos = make_segy(sgy, kind if kind != 'irregular' else 'irregular', dims, fmt=o.get('fmt', 1), ext=o.get('ext', 0), il0=il0,
-                                     il_step=il_step, xl0=xl0, xl_step=xl_step, dt_us=int(m_.get('dt_ms', o.get('dt_ms', 4)) * 1000), t0_ms=m_.get('t0_ms', o.get('t0_ms', 0)),
+                                     il_step=il_step, xl0=xl0, xl_step=xl_step, dt_us=int(m_['dt_us']) if 'dt_us' in m_ else int(m_.get('dt_ms', o.get('dt_ms', 4)) * 1000),
+                                     t0_ms=m_.get('t0_ms', o.get('t0_ms', 0)),
                                      holes=holes, extra=extra)
     kw = {}
     if o.get('window') == 'sym':
@@ -212,8 +213,15 @@ def replay_segy(req, tmp):
                     bad.append('xlines %s (source %s)' % (np.asarray(r.xlines)[:4].tolist(), xl[:4].tolist()))
                 if r.tracecount != len(il) * len(xl) or not r.structured:
                     bad.append('tracecount %s structured %s (window %dx%d)' % (r.tracecount, r.structured, len(il), len(xl)))
+            if prop == 'C05' and 'dt_us' in m_:
+                import struct as _st
+                with open(sgz, 'rb') as fh:
+                    hb = fh.read(64)
+                iv = _st.unpack_from('<i', hb, 28)[0]
+                if iv != m_['dt_us']:
+                    bad.append('stored sample interval %d us (source %d us)' % (iv, m_['dt_us']))
             if prop in ('C05', 'C11'):
-                zs = m_.get('t0_ms', o.get('t0_ms', 0)) + m_.get('dt_ms', o.get('dt_ms', 4)) * np.arange(dims[-1])
+                zs = m_.get('t0_ms', o.get('t0_ms', 0)) + (m_['dt_us'] / 1000.0 if 'dt_us' in m_ else m_.get('dt_ms', o.get('dt_ms', 4))) * np.arange(dims[-1])
                 if len(r.zslices) != dims[-1] or not np.allclose(np.asarray(r.zslices), zs, rtol=0, atol=1e-6):
                     bad.append('sample axis len %d %s (source len %d %s)' % (len(r.zslices), np.asarray(r.zslices)[:3].tolist(), dims[-1], zs[:3].tolist()))
             if prop == 'C11':
